@@ -25,6 +25,7 @@ import (
 	"io"
 	"net"
 	"os"
+	"regexp"
 	"strconv"
 	"strings"
 	"time"
@@ -32,11 +33,14 @@ import (
 	"github.com/siglens/siglens/cmd/startup"
 	"github.com/siglens/siglens/pkg/config"
 	"github.com/siglens/siglens/pkg/dashboards"
+	esreader "github.com/siglens/siglens/pkg/es/reader"
 	eswriter "github.com/siglens/siglens/pkg/es/writer"
+	otsdbquery "github.com/siglens/siglens/pkg/integrations/otsdb/query"
 	otsdbwriter "github.com/siglens/siglens/pkg/integrations/otsdb/writer"
-	"github.com/siglens/siglens/pkg/otlp"
 	prometheuswriter "github.com/siglens/siglens/pkg/integrations/prometheus/ingest"
+	"github.com/siglens/siglens/pkg/integrations/prometheus/promql"
 	"github.com/siglens/siglens/pkg/lookups"
+	"github.com/siglens/siglens/pkg/otlp"
 	"github.com/siglens/siglens/pkg/scroll"
 	"github.com/siglens/siglens/pkg/segment/writer"
 	"github.com/siglens/siglens/pkg/segment/writer/metrics"
@@ -95,7 +99,17 @@ var c19eHandlers = map[string]func(ctx *fasthttp.RequestCtx){
 	"otsdbPut":        func(ctx *fasthttp.RequestCtx) { otsdbwriter.PutMetrics(ctx, 0) },
 	"promWrite":       func(ctx *fasthttp.RequestCtx) { prometheuswriter.PutMetrics(ctx, 0) },
 	"otlpMetrics":     func(ctx *fasthttp.RequestCtx) { otlp.ProcessMetricsIngest(ctx, 0) },
+	"otsdbQuery":      func(ctx *fasthttp.RequestCtx) { otsdbquery.MetricsQueryParser(ctx, 0) },
+	"otsdbQueryExp":   otsdbquery.MetricsQueryExpressionsParser,
+	"promLabelValues": func(ctx *fasthttp.RequestCtx) { promql.ProcessGetLabelValuesRequest(ctx, 0) },
+	"esSearch":        func(ctx *fasthttp.RequestCtx) { esreader.ProcessSearchRequest(ctx, 0) },
 }
+
+// the first UUID of the previous answer (a created dashboard / folder id): stands in for @LASTID@… in the next request
+var c19eLastID string
+var c19eUUIDRe = regexp.MustCompile(`[0-9a-f]{8}-[0-9a-f]{4}-[0-9a-f]{4}-[0-9a-f]{4}-[0-9a-f]{12}`)
+
+const c19eLastIDTok = "@LASTID@@@@@@@@@@@@@@@@@@@@@@@@@@@@@"
 
 func init() {
 	if len(os.Args) >= 5 && os.Args[1] == "c19eworker" {
@@ -129,9 +143,12 @@ tls:
   enabled: false
 queryTimeoutSecs: 20
 `, iport, qport, cwd, cwd)
-	if err := os.WriteFile("server.yaml", []byte(yaml), 0o644); err != nil {
-		fmt.Println("FATAL", err)
-		os.Exit(3)
+	// a restarted worker (same sandbox, same ports) finds its configuration file as it left it and does not touch it
+	if cur, err := os.ReadFile("server.yaml"); err != nil || string(cur) != yaml {
+		if err := os.WriteFile("server.yaml", []byte(yaml), 0o644); err != nil {
+			fmt.Println("FATAL", err)
+			os.Exit(3)
+		}
 	}
 	os.Args = []string{"siglens", "-config", "server.yaml"}
 	// no outbound traffic: the startup's "which IP am I" lookup fails at once instead of waiting for a resolver
@@ -184,6 +201,15 @@ func c19eDo(rq *c19eReq, iport, qport string) (rs c19eResp) {
 	defer func() {
 		if r := recover(); r != nil {
 			rs.Err = fmt.Sprintf("panic: %v", r)
+		}
+	}()
+	if c19eLastID != "" {
+		rq.Raw = bytes.ReplaceAll(rq.Raw, []byte(c19eLastIDTok), []byte(c19eLastID))
+		rq.Body = bytes.ReplaceAll(rq.Body, []byte(c19eLastIDTok), []byte(c19eLastID))
+	}
+	defer func() {
+		if m := c19eUUIDRe.Find(rs.Body); m != nil {
+			c19eLastID = string(m)
 		}
 	}()
 	switch rq.Level {
